@@ -288,6 +288,7 @@ enum Call {
     UpEnum,
     UpHasNext,
     UpGet(i32, i32), // -1 NULL, -2 the size has_next reports, n >= 0 that many bytes
+    SelKey(i32),     // chewing_set_selKey with a table of exactly that many entries (-1: NULL)
     UpAdd(String, String),
     UpRemove(String, String),
     UpLookup(String, String),
@@ -369,6 +370,7 @@ impl Call {
             Call::FreeForeign => "free_foreign".into(),
             Call::SetInt(n, v) => format!("set_int {} {}", n, v),
             Call::SetKb(n) => format!("set_kb {}", n),
+            Call::SelKey(n) => format!("sel_key {}", n),
         }
     }
     fn parse(line: &str) -> Option<Call> {
@@ -392,6 +394,7 @@ impl Call {
             "int_get" => Call::IntGet,
             "kb_enum" => Call::KbEnum,
             "kb_has_next" => Call::KbHasNext,
+            "sel_key" => Call::SelKey(i(1)?),
             "kb_string" => Call::KbString,
             "kb_string_static" => Call::KbStringStatic,
             "up_enum" => Call::UpEnum,
@@ -1010,6 +1013,28 @@ impl<'a> Exec<'a> {
                     self.emit(format!("1 {} 1 {}", buf, bytes_str(&text)), r);
                 }
             }
+            Call::SelKey(n) => {
+                // the caller's table has exactly n entries; behind it lie poisoned ints: a reader that takes more than
+                // n entries carries the poison into the selection keys (an over-read that no allocator notices)
+                const POISON: c_int = 0x5eed_c15;
+                let before: Vec<c_int> = unsafe { std::slice::from_raw_parts(chewing_get_selKey(ctx), 10).to_vec() };
+                let mut table: Vec<c_int> = (0..(*n).max(0)).map(|i| b'a' as c_int + (i % 26)).collect();
+                table.extend(std::iter::repeat(POISON).take(16));
+                unsafe { chewing_set_selKey(ctx, if *n < 0 { std::ptr::null() } else { table.as_ptr() }, *n) };
+                let after: Vec<c_int> = unsafe { std::slice::from_raw_parts(chewing_get_selKey(ctx), 10).to_vec() };
+                if after.iter().any(|x| *x == POISON) {
+                    self.fail("selkey-read-past-len", format!("chewing_set_selKey(len = {}) read past the end of the caller's table: {:x?}", n, after));
+                } else if *n != 10 && after != before {
+                    self.fail("selkey-bad-count-accepted", format!("chewing_set_selKey(len = {}) changed the keys to {:?}", n, after));
+                } else if *n == 10 && after != table[..10] {
+                    self.fail("selkey-not-stored", format!("{:?}", after));
+                }
+                if *n == 10 {
+                    // back to the keys the rest of the sequence (and the model's candidate choices) count on
+                    unsafe { chewing_set_selKey(ctx, before.as_ptr(), 10) };
+                }
+                self.call_generic(&[], false);
+            }
             Call::PhoneSeq => {
                 let len = unsafe { chewing_get_phoneSeqLen(ctx) };
                 let p = unsafe { chewing_get_phoneSeq(ctx) };
@@ -1353,6 +1378,14 @@ fn fixed_seqs() -> Vec<Seq> {
         c.push(Call::Named("down"));
         c.push(Call::UpLookup(NULL_ARG.into(), b0.into()));
         c.push(Call::UpRemove(NULL_ARG.into(), NULL_ARG.into()));
+        c.push(Call::Named("esc"));
+        // chewing_set_selKey with tables of every length around the one it takes
+        for n in [-1, 0, 1, 5, 9, 10, 11, 40] {
+            c.push(Call::SelKey(n));
+        }
+        c.extend("hk4".bytes().map(Call::Key));
+        c.push(Call::Named("down"));
+        c.push(Call::SelKey(7));
         c.push(Call::Named("esc"));
         v.push(Seq { preload: true, calls: c });
     }
